@@ -19,7 +19,7 @@ ASSUMPTIONS = [
     "fp64 kernels: |marker effect| <= 1e150 (ploidy*u must not overflow to infinity)",
 ]
 STUBS = []
-BOUNDS = {"quick": dict(real_mode="|P|<=2, |P'|<=2, markers<=2, traits<=2", fp64="n in [1,64]: p>0.0 / p>=1.0 comparators of usl/lsl on afreq() and on the ndarray branch"),
+BOUNDS = {"quick": dict(real_mode="|P|<=2, |P'|<=2, markers<=2, traits<=2; in-place histories of one operation; ploidy 3/4 panels of 2 taxa; one real two-way cross of 2 markers", fp64="n in [1,64]: p>0.0 / p>=1.0 comparators of usl/lsl on afreq() and on the ndarray branch"),
           "thorough": dict(real_mode="|P|<=3, |P'|<=3, markers<=3, traits<=2", fp64="n in [1,256]")}
 OUTSIDE = ["populations larger than the bounds in the real-mode inductive step", "rounding in the sums of effects (exact reals)"]
 
@@ -121,6 +121,130 @@ class LimitsStep(Harness):
                 lo = lo + cell(inp["beta"], 0, tr)
             P.prove(P.eq(cell(out["uslP"], tr), up), "usl=definition")
             P.prove(P.eq(cell(out["lslP"], tr), lo), "lsl=definition")
+
+
+class SameObject(Harness):
+    """limits are a function of the object's current content: query, change the population in place, query again"""
+    name = "limits-after-in-place-change"
+
+    def modules(self):
+        return [GMOD, PGM, GM]
+
+    def inputs(self, mk):
+        n, m, t = self.params["n"], self.params["m"], self.params["t"]
+        return dict(A=mk.int("a", (2, n, m), lo=0, hi=1, vd="int8"), E=mk.int("e", (2, 1, m), lo=0, hi=1, vd="int8"), u=mk.real("u", (m, t)), beta=mk.real("beta", (1, t)))
+
+    def _obs(self, mod, g):
+        return dict(usl=mod.usl(g), lsl=mod.lsl(g), afreq=g.afreq(), acount=g.acount(), apoly=g.apoly())
+
+    def call(self, inp, mk):
+        n, m, t = self.params["n"], self.params["m"], self.params["t"]
+        mod = _model(inp["beta"], inp["u"], t)
+        g = _mk_gmat("phased", inp["A"].copy())
+        first = self._obs(mod, g)
+        op = self.params["op"]
+        if op == "remove":
+            g.remove_taxa(self.params["idx"])
+        elif op == "append":
+            g.append_taxa(inp["E"].copy(), taxa=numpy.array(["new"], dtype=object), taxa_grp=numpy.array([9]))
+        elif op == "incorp":
+            g.incorp_taxa(0, inp["E"].copy(), taxa=numpy.array(["new"], dtype=object), taxa_grp=numpy.array([9]))
+        elif op == "setmat":
+            g.mat = numpy.concatenate([inp["A"][:, 1:, :], inp["E"]], axis=1) if n > 1 else inp["E"].copy()
+        after = self._obs(mod, g)
+        fresh = self._obs(mod, _mk_gmat("phased", g.mat.copy()))
+        return dict(first=first, after=after, fresh=fresh)
+
+    def check(self, P, inp, out):
+        t, op = self.params["t"], self.params["op"]
+        for k in ("usl", "lsl", "afreq", "acount", "apoly"):
+            a, f = out["after"][k], out["fresh"][k]
+            P.prove(tuple(a.shape) == tuple(f.shape), "same-shape:" + k)
+            for x, y in zip(cells(a), cells(f)):
+                P.prove(P.eq(x, y), "after-an-in-place-change-%s-equals-that-of-a-fresh-object-with-the-same-content" % k)
+        if op == "remove":
+            for tr in range(t):
+                P.prove(P.le(cell(out["after"]["usl"], tr), cell(out["first"]["usl"], tr)), "culling-never-raises-the-upper-limit")
+                P.prove(P.le(cell(out["first"]["lsl"], tr), cell(out["after"]["lsl"], tr)), "culling-never-lowers-the-lower-limit")
+
+
+class Polyploid(Harness):
+    """unphased panel of ploidy k: limits of a sub-selection bracket its members, tighten, and equal those of a fresh panel"""
+    name = "limits-polyploid-subselection"
+
+    def modules(self):
+        return [GMOD, PGM, GM]
+
+    def inputs(self, mk):
+        n, m, t, k = self.params["n"], self.params["m"], self.params["t"], self.params["ploidy"]
+        return dict(Z=mk.int("z", (n, m), lo=0, hi=k, vd="int8"), u=mk.real("u", (m, t)), beta=mk.real("beta", (1, t)))
+
+    def call(self, inp, mk):
+        n, m, t, k = self.params["n"], self.params["m"], self.params["t"], self.params["ploidy"]
+        mod = _model(inp["beta"], inp["u"], t)
+        g = _mk_gmat("unphased", inp["Z"].copy(), ploidy=k)
+        sel = g.select_taxa(self.params["sel"])
+        fresh = _mk_gmat("unphased", inp["Z"][numpy.array(self.params["sel"])].copy(), ploidy=k)
+        return dict(uslP=mod.usl(g), lslP=mod.lsl(g), uslS=mod.usl(sel), lslS=mod.lsl(sel), uslF=mod.usl(fresh), lslF=mod.lsl(fresh),
+                    gebv=mod.gebv_numpy(inp["Z"]), ploidy_sel=sel.ploidy, afreqS=sel.afreq(), afreqF=fresh.afreq())
+
+    def check(self, P, inp, out):
+        n, m, t, k = self.params["n"], self.params["m"], self.params["t"], self.params["ploidy"]
+        P.prove(int(out["ploidy_sel"]) == k, "sub-selection-keeps-the-ploidy", detail="%s" % out["ploidy_sel"])
+        for x, y in zip(cells(out["afreqS"]), cells(out["afreqF"])):
+            P.prove(P.eq(x, y), "sub-selection-frequencies=fresh-panel")
+        Z = inp["Z"]
+        for tr in range(t):
+            uP, lP, uS, lS = (cell(out[q], tr) for q in ("uslP", "lslP", "uslS", "lslS"))
+            P.prove(And(P.eq(uS, cell(out["uslF"], tr)), P.eq(lS, cell(out["lslF"], tr))), "sub-selection-limits=fresh-panel-limits")
+            P.prove(And(P.le(uS, uP), P.le(lP, lS)), "limits-of-a-sub-selection-are-tighter")
+            for i in range(n):
+                P.prove(And(P.le(lP, cell(out["gebv"], i, tr)), P.le(cell(out["gebv"], i, tr), uP)), "limits-bracket-members")
+            up, lo = 0.0, 0.0
+            for j in range(m):
+                pres1 = Or(*[cell(Z, i, j) > 0 for i in range(n)])
+                pres0 = Or(*[cell(Z, i, j) < k for i in range(n)])
+                u = cell(inp["u"], j, tr)
+                up = up + Ite(And(pres1, pres0), Ite(u > 0, k * u, 0.0), Ite(pres1, k * u, 0.0))
+                lo = lo + Ite(And(pres1, pres0), Ite(u > 0, 0.0, k * u), Ite(pres1, k * u, 0.0))
+            P.prove(P.eq(uP, up), "usl=definition(ploidy)")
+            P.prove(P.eq(lP, lo), "lsl=definition(ploidy)")
+
+
+class ThroughMating(Harness):
+    """end to end: progeny of a real two-way cross of parents whose variants are stored ungrouped and out of order stay inside the parental limits"""
+    name = "limits-bracket-real-progeny"
+
+    def modules(self):
+        return [GMOD, PGM, GM, "pybrops.breed.prot.mate.TwoWayCross", "pybrops.breed.prot.mate.util"]
+
+    def inputs(self, mk):
+        m, t = self.params["m"], self.params["t"]
+        return dict(A=mk.int("a", (2, 2, m), lo=0, hi=1, vd="int8"), u=mk.real("u", (m, t)), beta=mk.real("beta", (1, t)), rng=mk.rng())
+
+    def call(self, inp, mk):
+        from pybrops.popgen.gmat.DensePhasedGenotypeMatrix import DensePhasedGenotypeMatrix
+        from pybrops.breed.prot.mate.TwoWayCross import TwoWayCross
+        m, t = self.params["m"], self.params["t"]
+        mod = _model(inp["beta"], inp["u"], t)
+        chr_ = numpy.array(self.params["chrgrp"])
+        pos = numpy.array(self.params["phypos"])
+        pg = DensePhasedGenotypeMatrix(mat=inp["A"].copy(), taxa=numpy.array(["p0", "p1"], dtype=object), taxa_grp=numpy.array([1, 2]), vrnt_chrgrp=chr_, vrnt_phypos=pos,
+                                       vrnt_name=numpy.array(["s%d" % j for j in range(m)], dtype=object), vrnt_genpos=pos * 0.01,
+                                       vrnt_xoprob=numpy.array([0.5, 0.25, 0.5][:m]))
+        if self.params.get("grouped"):
+            pg.group_vrnt()
+        prog = TwoWayCross(rng=inp["rng"]).mate(pg, numpy.array([[0, 1]]), 1, 1, nself=0)
+        return dict(uslP=mod.usl(pg), lslP=mod.lsl(pg), uslQ=mod.usl(prog), lslQ=mod.lsl(prog), gebvQ=mod.gebv(prog).unscale(),
+                    names_parent=[str(x) for x in pg.vrnt_name], names_prog=[str(x) for x in prog.vrnt_name])
+
+    def check(self, P, inp, out):
+        t = self.params["t"]
+        for tr in range(t):
+            g = cell(out["gebvQ"], 0, tr) - cell(inp["beta"], 0, tr)
+            P.prove(And(P.le(cell(out["lslP"], tr), g), P.le(g, cell(out["uslP"], tr))), "parental-limits-bracket-the-progeny-value")
+            P.prove(P.le(cell(out["uslQ"], tr), cell(out["uslP"], tr)), "upper-limit-never-increases-through-mating")
+            P.prove(P.le(cell(out["lslP"], tr), cell(out["lslQ"], tr)), "lower-limit-never-decreases-through-mating")
 
 
 class LimitsFP:
@@ -394,6 +518,21 @@ def obligations(tier):
         h = LimitsStep(n=n, n2=n2, m=m, t=t, **extra)
         h.weight = 4 ** ((n + n2) * m)
         obs.append(h)
+    ops = [dict(n=2, m=2, t=1, op="remove", idx=[0]), dict(n=2, m=1, t=1, op="append"), dict(n=2, m=1, t=1, op="setmat")]
+    if tier == "thorough":
+        ops += [dict(n=3, m=2, t=1, op="remove", idx=[0, 2]), dict(n=2, m=2, t=2, op="incorp"), dict(n=2, m=2, t=1, op="append"), dict(n=3, m=1, t=1, op="remove", idx=[1])]
+    for o in ops:
+        obs.append(SameObject(**o))
+    poly = [dict(n=2, m=1, t=1, ploidy=4, sel=[1]), dict(n=2, m=2, t=1, ploidy=3, sel=[0])]
+    if tier == "thorough":
+        poly += [dict(n=3, m=1, t=1, ploidy=4, sel=[0, 2]), dict(n=2, m=2, t=2, ploidy=4, sel=[1, 0]), dict(n=2, m=1, t=1, ploidy=1, sel=[0])]
+    for o in poly:
+        obs.append(Polyploid(**o))
+    tm = [dict(m=2, t=1, chrgrp=[2, 1], phypos=[5, 7]), dict(m=2, t=1, chrgrp=[1, 1], phypos=[9, 3])]
+    if tier == "thorough":
+        tm += [dict(m=3, t=1, chrgrp=[2, 1, 2], phypos=[5, 7, 1]), dict(m=2, t=2, chrgrp=[1, 2], phypos=[5, 7], grouped=True)]
+    for o in tm:
+        obs.append(ThroughMating(**o))
     nmax = 64 if tier == "quick" else 256
     for src in ("phased", "unphased", "ndarray:usl", "ndarray:lsl"):
         obs.append(LimitsFP(src, nmax))
